@@ -208,7 +208,7 @@ pub fn run(tier: Tier) -> i32 {
     // (settings, depth for setup 0, depth for setup 1): the 6 MiB literal table of lc+lp = 12 makes every decode cost
     // ~90 us, so the heavy settings get one level less
     let groups: Vec<(Vec<(u32, u32, u32)>, usize, usize)> = tier.pick(
-        vec![(vec![(3, 0, 2), (0, 0, 0), (0, 4, 0), (4, 0, 4), (1, 2, 3)], 4, 3), (vec![(8, 4, 4)], 3, 2)],
+        vec![(vec![(3, 0, 2), (0, 0, 0), (0, 4, 0), (4, 0, 4), (1, 2, 3)], 5, 4), (vec![(8, 4, 4)], 3, 2)],
         vec![(vec![(3, 0, 2), (0, 0, 0), (0, 4, 0), (4, 0, 4), (1, 2, 3), (2, 2, 1)], 6, 4), (vec![(3, 0, 2)], 7, 5), (vec![(8, 0, 0)], 5, 4), (vec![(8, 4, 4)], 3, 2)],
     );
     let sigma = automaton_alphabet(seed);
@@ -734,6 +734,6 @@ pub fn run(tier: Tier) -> i32 {
     let ls = cover_ls.lock().unwrap().len();
     ctx.set_extra("distinct_state_x_symbolkind_pairs", json!(sk));
     ctx.set_extra("distinct_lenclass_x_distslot_pairs", json!(ls));
-    ctx.set_extra("bounds", json!({"automaton_depth": tier.pick(4,6), "max_distance_log2": tier.pick(20,26), "wrap_dict_max": tier.pick(6,8)}));
+    ctx.set_extra("bounds", json!({"automaton_depth": tier.pick(5,7), "max_distance_log2": tier.pick(20,26), "wrap_dict_max": tier.pick(6,8)}));
     ctx.finish()
 }
